@@ -15,6 +15,10 @@ type DataURL struct {
 
 func ParseDataURL(url string) (parsed DataURL, ok bool) {
 	if strings.HasPrefix(url, "data:") {
+		// The fragment is not part of the resource
+		if hash := strings.IndexByte(url, '#'); hash != -1 {
+			url = url[:hash]
+		}
 		if comma := strings.IndexByte(url, ','); comma != -1 {
 			parsed.mimeType = url[len("data:"):comma]
 			parsed.data = url[comma+1:]
